@@ -423,7 +423,7 @@ func TestC03Sim(t *testing.T) {
 			for _, name := range s.names() {
 				v := s.lastVersion(name)
 				c := s.broker.Conf.Cache.Get(name)
-				if s.tainted[name] || s.delivered(name, v.hash) || c == nil || c.IsDone() {
+				if s.tainted[name] || c == nil || c.IsDone() {
 					continue
 				}
 				var acked []rng
